@@ -17,13 +17,13 @@ def params(cls, nps, scale=1.0):
         return dict(dimension=u(0.5, 2, 2) * scale, polarization=u(-1, 1, 3))
     if cls == "CylinderSegment":
         r1 = u(0.2, 0.9)
-        p1 = u(-180, 120)
-        if nps.random() < 0.2:  # the same angular ranges written one or two full turns away (valid input)
+        p1 = u(-350, 120) if nps.random() < 0.5 else u(-180, 120)  # documented range [-360, 360]: also ranges that start below -180
+        if nps.random() < 0.35:  # the same angular ranges written one or two full turns away (valid input)
             p1 += 360.0 * float(nps.choice([-2, -1, 1, 2]))
         if nps.random() < 0.2:  # full ring (hollow cylinder): exactly 360 degrees
             p1 = float(np.round(p1))  # whole degrees: p1 + 360 - p1 == 360 exactly
             return dict(dimension=(r1 * scale, (r1 + u(0.3, 1)) * scale, u(0.5, 2) * scale, p1, p1 + 360.0), polarization=u(-1, 1, 3))
-        return dict(dimension=(r1 * scale, (r1 + u(0.3, 1)) * scale, u(0.5, 2) * scale, p1, p1 + u(30, 300)), polarization=u(-1, 1, 3))
+        return dict(dimension=(r1 * scale, (r1 + u(0.3, 1)) * scale, u(0.5, 2) * scale, p1, p1 + u(30, min(300, 355 - p1) if p1 < -180 else 300)), polarization=u(-1, 1, 3))
     if cls == "Sphere":
         return dict(diameter=u(0.5, 2) * scale, polarization=u(-1, 1, 3))
     if cls == "Tetrahedron":
@@ -129,7 +129,15 @@ def interior_points(cls, src, nps, k=3):
     if cls == "CylinderSegment":
         r1, r2, h, p1, p2 = src.dimension
         r = nps.uniform(r1 + 0.1 * (r2 - r1), r2 - 0.1 * (r2 - r1), k)
-        ph = np.radians(nps.uniform(p1 + 0.1 * (p2 - p1), p2 - 0.1 * (p2 - p1), k))
+        phd = nps.uniform(p1 + 0.1 * (p2 - p1), p2 - 0.1 * (p2 - p1), k)
+        # the part of the range beyond +-180 degrees (where the observer's principal azimuth differs by a full turn) gets half of the points
+        if p1 < -182:
+            hi = min(p2, -180.0)
+            phd[: (k + 1) // 2] = nps.uniform(p1 + 0.05 * (hi - p1), hi - 0.05 * (hi - p1), (k + 1) // 2)
+        elif p2 > 182:
+            lo = max(p1, 180.0)
+            phd[: (k + 1) // 2] = nps.uniform(lo + 0.05 * (p2 - lo), p2 - 0.05 * (p2 - lo), (k + 1) // 2)
+        ph = np.radians(phd)
         return np.stack([r * np.cos(ph), r * np.sin(ph), nps.uniform(-0.4, 0.4, k) * h], axis=1)
     if cls in ("Tetrahedron", "TriangularMesh"):
         v = np.asarray(src.vertices, float)
